@@ -198,7 +198,7 @@ PROPS = {
         engine="step-harness+synctest",
     ),
     "C09": dict(
-        lean_modules=["Swim.Model.Verify", "Swim.Lemmas.Merge", "Swim.Props.C09"],
+        lean_modules=["Swim.Model.Verify", "Swim.Lemmas.Merge", "Swim.Props.C09", 'Swim.Model.Cluster', 'Swim.Props.Cluster', 'Swim.Props.ClusterG', 'Swim.Props.Projection', 'Swim.Props.C05Recover', 'Swim.Props.C09Cluster'],
         tests="^TestC09$",
         shards_quick=4,
         rule=("(vp) verifyProtocol on local tables of 1-4 records (alive/suspect/dead, admitted version vectors or none) against remote lists of 0-3 "
@@ -211,7 +211,7 @@ PROPS = {
         assumptions=["join exchanges are not concurrent with other state changes on the two nodes (concurrent gossip is the simulator's leg)"],
         level_text=("Proof: verifyProtocol soundness (acceptance implies every listed node's spoken versions lie within every alive node's understood "
                     "range, both sides), admission order (version error / veto before any merge), hearsay never kills, reported-alive members are listed "
-                    "after the merge (Lean). Tied by table correspondence of verifyProtocol, full joins compared with the model on both nodes, and "
+                    "after the merge; C09_cluster_join_lists: in every reachable state of the cluster model a running node's own state entry, delivered to any node whose filters pass it, leaves that node listing the sender - whether it was unknown, held older in any state, or already listed - the address condition being an invariant (Lean). Tied by table correspondence of verifyProtocol, full joins compared with the model on both nodes, and "
                     "cut-at-every-byte / oversize campaigns on the real stream code."),
         level_note="Trusted: Lean kernel; msgpack stream framing and TCP behaviour are exercised, not proved (all-or-nothing at byte level is an enumeration).",
         engine="step-harness+codec-harness",
